@@ -24,6 +24,18 @@ CLAIMED = {
          "parse/print round trip of query strings (regexp engine: outside the verifier's subset) and payload templating (template engine, reflection) - "
          "those two clauses of the statement are not applicable to this technique.",
          "DESIGN.md §6 C20"),
+ "C16": ("Proof for all outcome patterns at once (the device's answers are symbolic, the functions are loop-free, so this is complete, not sampled) "
+         "of FairMQ.Commit, doConfigure, doReset, Direct.Commit against a ghost device state: unless the last step got no reply the reported state is "
+         "the image of the state the device is really in; success (err == nil) only if the device is in the destination; a device left in an "
+         "intermediate state (INITIALIZED, BOUND, DEVICE READY) only after a rollback to the source state was requested from that state and not "
+         "accepted; fmqStateForState/stateForFmqState are the documented correspondence; RpcClient.doTransition accepts a reply only if ok, "
+         "executor-triggered, same event and expected state and otherwise hands on the reply's state.",
+         "Assumed device model for the injected DoTransition function (four outcomes: done only if the device was in the requested source state, refused in "
+         "place, error state, no reply), backed by occ/plugin/OccFMQCommon.cxx's source-state check but not verified. The representation invariant of the "
+         "transitioner's two maps (wfFMQ) is a precondition, its establishment by NewFairMQTransitioner is not yet verified. RECOVER/GO_ERROR/unknown events "
+         "('not implemented yet' branch returning src) are outside Commit's precondition. gRPC stub assumed not to write executor memory. "
+         "Strings uninterpreted with distinct literals.",
+         "DESIGN.md §6 C16"),
 }
 
 NOT_APPLICABLE = {
